@@ -259,6 +259,31 @@ def run_program(rec, seed, target="stream", index=False, version=4712):
             elif call["call"] == "close":
                 writer.close()
                 writer = None
+            elif call["call"] == "refused":
+                # RefusedWrite of the specification: must raise, write nothing, change nothing
+                bad = []
+                for pth in call["paths"]:
+                    nms = [nmap.get(x, x) for x in _names(pth)]
+                    if len(nms) == 0:
+                        bad.append(RootObject())
+                    elif len(nms) == 1:
+                        bad.append(GroupObject(nms[0]))
+                    else:
+                        bad.append(ChannelObject(nms[0], nms[1], make_array(cls[pth], 2, pth, 0, seed)[0]))
+                gname = next((ob.group for ob in bad if isinstance(ob, (ChannelObject, GroupObject))), "g1")
+                if call["kind"] == "bad_property_value":
+                    bad.append(ChannelObject(gname, "refused", np.zeros(1), {"bad": None}))
+                elif call["kind"] == "unsupported_dtype":
+                    bad.append(ChannelObject(gname, "refused", np.zeros(2, dtype=np.float16)))
+                else:
+                    bad += [ChannelObject(gname, "refused", np.zeros(1)), ChannelObject(gname, "refused", np.zeros(1))]
+                before = _size(target, path, buf, writer)
+                try:
+                    writer.write_segment(bad)
+                    refused.append("accepted:" + call["kind"])
+                except Exception:  # noqa
+                    if _size(target, path, buf, writer) != before:
+                        refused.append("left-bytes:" + call["kind"])
             else:
                 objs = []
                 for o in call["objs"]:
